@@ -198,6 +198,9 @@ func Gen(o GenOpts) *rapid.Generator[Script] {
 			s.FbCap = pick(t, "fbcap", 0, 0, 1, 2, 4, 16, 100)
 		}
 
+		if s.Ver == 2 && !s.Simple {
+			s.ErrLate = rapid.IntRange(0, 2).Draw(t, "errlate") == 0
+		}
 		if o.LongHold {
 			s.EpiHold = pick(t, "epihold", int64(0), 0, 0, 1000000, 5000000001, 61000000000, 3600000000000)
 		}
@@ -318,7 +321,7 @@ func Gen(o GenOpts) *rapid.Generator[Script] {
 				if o.AddRemove {
 					p = anyP("wp2")
 				}
-				s.Ops = append(s.Ops, Op{K: "W", P: p, N: pick(t, "wn", 1, 1, 2, 3, h, h+1, 2*h)})
+				s.Ops = append(s.Ops, Op{K: "W", P: p, N: pick(t, "wn", 1, 1, 2, 3, h, h+1, 2*h, 3*h+2)})
 			case r < 27:
 				p := curP("cp")
 				if o.AddRemove {
